@@ -45,7 +45,7 @@ int main( int argc, char** argv )
         std::uint8_t o2[ 65 ]; std::size_t os2 = sizeof o2; srv.l2cap_output( o2, os2, d );
         std::printf( "default MTU 23, buffer 65: PDU of %zu bytes\n", os2 );
         REPLAY_CHECK( os2 <= 23 );
-    } else if ( u == "mtu.l2cap_input" || u == "mtu.handle_exchange_mtu_request_" ) {
+    } else if ( u == "mtu.l2cap_input" || u == "mtu.handle_exchange_mtu_request_" || u == "dispatch.l2cap_input" ) {
         const auto in = a.bytes( "W_in" ); std::size_t n = a.unum( "W_in_size" ); if ( n > 64 ) n = 64; if ( n < 1 ) n = 1;
         std::vector< std::uint8_t > pdu( n, 0 ); for ( std::size_t i = 0; i < n && i < in.size(); ++i ) pdu[ i ] = in[ i ];
         std::size_t room = a.unum( "W_out_size" ); if ( room > 600 ) room = 600; if ( room < 23 ) room = 23;
@@ -62,7 +62,7 @@ int main( int argc, char** argv )
         // framing (C01)
         const unsigned op = pdu[ 0 ];
         const bool no_response = op == 0x01 || ( op & 0x40 ) || op == 0x1B || ( op == 0x1E && n == 1 );
-        if ( a.has( "W_framing" ) ) { if ( no_response ) REPLAY_CHECK( os == 0 ); else REPLAY_CHECK( ( os >= 1 && out[ 0 ] == op + 1 ) || ( os == 5 && out[ 0 ] == 1 && out[ 1 ] == op ) ); }
+        if ( u == "dispatch.l2cap_input" ) { if ( no_response ) REPLAY_CHECK( os == 0 ); else REPLAY_CHECK( ( os >= 1 && out[ 0 ] == op + 1 ) || ( os == 5 && out[ 0 ] == 1 && out[ 1 ] == op ) ); }
     } else { std::printf( "no replay for unit %s\n", u.c_str() ); return 2; }
     std::printf( "not reproduced\n" );
     return 0;
